@@ -210,12 +210,20 @@ def make_image(case, arr):
     img.set_data_dtype(d)
     if case.get('offset'):
         img.header.set_data_offset(case['offset'])
+    if case.get('autoscale') and cls.header_class.has_data_slope:
+        # the state of an image built without a header: scale factors are chosen at save time
+        if cls.header_class.has_data_intercept:
+            img.header.set_slope_inter(np.nan, np.nan)
+        else:
+            img.header.set_slope_inter(np.nan)
     return img
 
 
 def run_case(chk, case, arr):
     """save + reload on the implementation; returns observables"""
     from nibabel.fileholders import FileHolder
+    from nibabel.spatialimages import HeaderDataError
+    from nibabel.arraywriters import WriterError
     ent = classes()[case['cls']]
     cls = ent['cls']
     out = {}
@@ -223,12 +231,19 @@ def run_case(chk, case, arr):
         warnings.simplefilter('ignore')
         img = make_image(case, arr)
         # the same image object has been saved before, with dtype= overrides (rescaled / not rescaled)
-        for hname in case.get('hist', ()):
+        for hstep, hname in enumerate(case.get('hist', ())):
             fmh = {t: FileHolder(fileobj=io.BytesIO()) for t, _ in cls.files_types}
-            img.to_file_map(fmh, dtype=HIST_DTYPE[hname])
-            if hname == 'scale':
-                hs = cls.from_file_map(fmh).header.get_slope_inter()
-                if hs[0] in (None, 1.0) and hs[1] in (None, 0.0):
+            try:
+                img.to_file_map(fmh, dtype=hist_dtype(case['cls'], hname))
+            except (HeaderDataError, WriterError):
+                # the earlier (rescaling) save was itself refused, e.g. a float64 range whose slope does not fit the
+                # header's float32 field (C02's subject); the image object goes on to the save under test
+                chk.refusal('history_save_refused')
+                continue
+            if hname == 'scale' and hstep == 0:      # generator sanity: the first override really rescales
+                pr = cls.from_file_map({t: FileHolder(fileobj=io.BytesIO(v.fileobj.getvalue()))
+                                        for t, v in fmh.items()}).dataobj
+                if pr.slope == 1.0 and pr.inter == 0.0:
                     raise RuntimeError('history save was expected to rescale')
         route = case['route']
         if route == 'filename':
@@ -301,11 +316,12 @@ def gen_cases(chk):
             vals = common_values(r, m, d, n, special).reshape(shape)
         if hist:       # make sure the uint8 override of the history really needs rescaling
             vals = vals.copy()
-            vals[(0,) * vals.ndim] = 1.5 if m.kind == 'f' else 1000
+            vals[(0,) * vals.ndim] = 1.5 if m.kind == 'f' else (100000 if clsname.startswith('spm') else 1000)
             if mem == 'broadcast':
                 vals[(0,) * (vals.ndim - 1)] = vals[(0,) * vals.ndim]
         cases.append(dict(id=len(cases), cls=clsname, mem=m, disk=d, shape=tuple(shape), be=be, comp=comp, route=route,
-                          layout=mem, offset=offset, tag=tag, vals=vals, hist=hist))
+                          layout=mem, offset=offset, tag=tag, vals=vals, hist=hist,
+                          autoscale=bool(hist) or (len(cases) % 2 == 0)))
 
     # ---- seed-independent core: every class x every on-disk dtype x both byte orders with the
     # same memory dtype, the other axes rotating deterministically; every rank 1..7; MGH ranks 1..5
@@ -338,8 +354,8 @@ def gen_cases(chk):
     # reused image objects: every class with a slope / intercept x every history, float and integer data
     for clsname in cs:
         for j, h in enumerate(HISTORIES):
-            for m, d in ((np.dtype('f4'), np.dtype('f4')), (np.dtype('f8'), np.dtype('f4')), (np.dtype('i4'), np.dtype('i2')),
-                         (np.dtype('i2'), np.dtype('f4'))):
+            for m, d in ((np.dtype('f4'), np.dtype('f4')), (np.dtype('f8'), np.dtype('f4')), (np.dtype('i4'), np.dtype('i4')),
+                         (np.dtype('i4'), np.dtype('f4'))):
                 add(clsname, m, d, gen_shape(fixed, 1 + k % 4), k % 2, COMPRESSIONS[k % 4], ROUTES[k % 4], MEM_KINDS[k % 6],
                     tag='core-history', r=fixed, hist=h)
                 k += 1
@@ -371,7 +387,6 @@ def gen_cases(chk):
 
 
 HISTORIES = [('scale',), ('noscale',), ('scale', 'noscale'), ('noscale', 'scale'), ('scale', 'scale')]
-HIST_DTYPE = {'scale': np.uint8, 'noscale': np.float64}
 
 
 def hist_ok(clsname, m, d):
@@ -381,14 +396,23 @@ def hist_ok(clsname, m, d):
         return False
     if m.kind == 'f':
         return d.kind in 'fc'
-    if m.kind in 'iu' and m.itemsize >= 2:
-        return (d.kind in 'iu' and d.itemsize >= 2) or (d.kind in 'fc' and d.itemsize >= 4)
+    need = 4 if clsname.startswith('spm') else 2      # room for the forced out-of-range value
+    if m.kind in 'iu' and m.itemsize >= need:
+        return (d.kind in 'iu' and d.itemsize >= need) or (d.kind in 'fc' and d.itemsize >= 4)
     return False
+
+
+def hist_dtype(clsname, hname):
+    """dtype= override of an earlier save: 'scale' must need rescaling (SPM has no intercept: a signed type)"""
+    if hname == 'noscale':
+        return np.float64
+    return np.int16 if clsname.startswith('spm') else np.uint8
 
 
 def describe(c):
     return {'cls': c['cls'], 'mem': str(c['mem']), 'disk': str(c['disk']), 'shape': list(c['shape']), 'be': c['be'],
             'comp': c['comp'], 'route': c['route'], 'layout': c['layout'], 'offset': c['offset'], 'hist': list(c.get('hist', ())),
+            'autoscale': bool(c.get('autoscale')),
             'vals_hex': np.ascontiguousarray(c['vals']).tobytes().hex()}
 
 
@@ -412,6 +436,9 @@ def run(chk: Check):
                 'to_stream/from_stream} and memory layout {C,F,strided,negative-stride,transposed} rotating; every (memory dtype, '
                 'on-disk dtype) pair that needs no scaling; user data offsets; MGH ranks 1-5. Random tail: all axes drawn at '
                 'random, values exactly representable in both dtypes incl. extremes, NaN (payloads), +-inf, -0, subnormals. '
+                'Reused image objects: the same image saved before with dtype=uint8 (rescaled) and/or dtype=float64 (not rescaled), every '
+                'class with a slope/intercept field x every history. Aliases (child processes): load memory-mapped, save onto the same '
+                'file through a symlink / hard link / relative spelling (both directions), fresh load. '
                 'A case is non-trivial when the array has more than one element; distinct by the whole configuration + values.')
     chk.assumptions = ['the array cast to the on-disk type is computed by NumPy astype (oracle) and given to the model',
                        'float -> integer storage always rescales (C02) and is outside this property',
@@ -444,7 +471,7 @@ def run(chk: Check):
                   sample=describe(c) if c['id'] in (5, 300, 900) else None)
         for t in (f"rank:{len(c['shape'])}", f"route:{c['route']}", f"comp:{c['comp'] or 'none'}", f"layout:{c['layout']}",
                   f"endian:{'>' if c['be'] else '<'}", f"disk:{c['disk'].str if c['disk'].fields is None else ('RGB' if c['disk'].itemsize == 3 else 'RGBA')}",
-                  f"gen:{c['tag']}", 'history:' + ('+'.join(c['hist']) or 'fresh'), 'scalingfree:' + ('same-dtype' if c['mem'] == c['disk'] else 'cast')):
+                  f"gen:{c['tag']}", 'history:' + ('+'.join(c['hist']) or 'fresh'), 'slope-state:' + ('nan(auto)' if c['autoscale'] else 'header'), 'scalingfree:' + ('same-dtype' if c['mem'] == c['disk'] else 'cast')):
             chk.tagc(t)
         mexp = mgh_expected_shape(c['shape']) if c['cls'] == 'mgh' else tuple(c['shape'])
         rec['mexp'] = mexp
@@ -536,8 +563,157 @@ def run(chk: Check):
                 chk.violation('correspondence', case=case, model_output=str(dis[0][1])[:300], impl_output=str(dis[0][2])[:300],
                               predicate='model and implementation disagree at ' + dis[0][0] + '; the property predicate holds on this case',
                               found_input=False, theorem='correspondence C01/Model.v <-> volumeutils / image classes')
+    alias_part(chk)
     chk.extra['unproved_statements'] = UNPROVED
     vm_sample(chk, recs)
+
+
+
+# ------------------------------------------------------------------ load -> save onto the same file by another name
+ALIAS_KINDS = ['symlink', 'hardlink', 'relative']
+ALIAS_EXTS = {'analyze': ['.img', '.hdr'], 'spm99': ['.img', '.hdr', '.mat'], 'spm2': ['.img', '.hdr', '.mat'],
+              'nifti1': ['.nii'], 'nifti1pair': ['.img', '.hdr'], 'nifti2': ['.nii'], 'nifti2pair': ['.img', '.hdr'],
+              'mgh': ['.mgh']}
+
+
+def alias_cases(chk):
+    """seed-independent list: every class x alias kind x direction x {small, several pages}; values from the seed"""
+    cs = classes()
+    out = []
+    k = 0
+    for clsname, ent in cs.items():
+        dts = [d for d in ent['dtypes']]
+        for kind in ALIAS_KINDS:
+            for direction in ('load-alias-save-real', 'load-real-save-alias'):
+                for shape in ((3, 4, 5), (40, 40, 8)):
+                    d = nat(dts[k % len(dts)])
+                    be = 1 if clsname == 'mgh' else k % 2
+                    n = int(np.prod(shape))
+                    vals = common_values(chk.rng, d, d, n, True).reshape(shape)
+                    out.append(dict(id=k, part='alias', cls=clsname, disk=str(d) if d.fields is None else ('RGB' if d.itemsize == 3 else 'RGBA'),
+                                    shape=list(shape), be=be, kind=kind, direction=direction,
+                                    vals_hex=np.ascontiguousarray(vals).tobytes().hex()))
+                    k += 1
+    return out
+
+
+def parse_dt(s):
+    if s == 'RGB' or (s.startswith('[') and "'A'" not in s):
+        return RGB
+    if s == 'RGBA' or s.startswith('['):
+        return RGBA
+    return np.dtype(s)
+
+
+def alias_one(c, root):
+    """executed in the child: returns a verdict string"""
+    import shutil
+    ent = classes()[c['cls']]
+    cls = ent['cls']
+    d = parse_dt(c['disk'])
+    vals = np.frombuffer(bytes.fromhex(c['vals_hex']), dtype=d).reshape(c['shape'])
+    wd = os.path.join(root, f"alias{c['id']}")
+    shutil.rmtree(wd, ignore_errors=True)
+    os.makedirs(os.path.join(wd, 'sub'))
+    os.chdir(wd)
+    main_ext = ALIAS_EXTS[c['cls']][0]
+    real = os.path.join(wd, 'a' + main_ext)
+    with warnings.catch_warnings():
+        warnings.simplefilter('ignore')
+        if c['cls'] == 'mgh':
+            hdr = cls.header_class()
+        else:
+            hdr = cls.header_class(endianness='>' if c['be'] else '<')
+        hdr.set_data_dtype(d)
+        img = cls(vals, np.eye(4), header=hdr)
+        img.set_data_dtype(d)
+        img.to_filename(real)
+        del img
+        if c['kind'] == 'relative':
+            alias = os.path.join('sub', '..', 'a' + main_ext)
+        else:
+            for ext in ALIAS_EXTS[c['cls']]:
+                if os.path.exists(os.path.join(wd, 'a' + ext)):
+                    (os.symlink if c['kind'] == 'symlink' else os.link)(os.path.join(wd, 'a' + ext), os.path.join(wd, 'l' + ext))
+            alias = os.path.join(wd, 'l' + main_ext)
+        load_name, save_name = (alias, real) if c['direction'] == 'load-alias-save-real' else (real, alias)
+        img = cls.from_filename(load_name)         # default mmap
+        img.to_filename(save_name)
+        del img
+        arr2 = np.array(np.asanyarray(cls.from_filename(real).dataobj))
+    os.chdir(root)
+    shutil.rmtree(wd, ignore_errors=True)
+    if tuple(arr2.shape) != tuple(c['shape']):
+        return f'shape {tuple(arr2.shape)}'
+    if arr2.astype(nat(arr2.dtype)).tobytes() != np.ascontiguousarray(vals).tobytes():
+        return 'data differ'
+    return 'ok'
+
+
+def alias_child(path):
+    import json
+    import logging
+    import sys
+    logging.disable(logging.CRITICAL)
+    job = json.load(open(path))
+    for c in job['cases']:
+        print(f"START {c['id']}", flush=True)
+        try:
+            v = alias_one(c, job['root'])
+        except Exception as e:  # noqa: BLE001 - verdict for the parent
+            v = f'exception {type(e).__name__}: {e}'[:200]
+        print(f"DONE {c['id']} {v}", flush=True)
+    sys.exit(0)
+
+
+def run_alias_children(chk, cases):
+    """batched child processes; a child killed by a signal is attributed to the case it had started"""
+    import json
+    import subprocess
+    import common
+    verdicts = {}
+    todo = list(cases)
+    rounds = 0
+    while todo and rounds < len(cases) + 5:
+        rounds += 1
+        jp = os.path.join(chk.workdir, f'alias_job{rounds}.json')
+        with open(jp, 'w') as f:
+            json.dump({'root': chk.workdir, 'cases': todo}, f)
+        p = subprocess.run([common.PY, os.path.abspath(__file__), '--alias-child', jp], env=common.impl_env(),
+                           capture_output=True, text=True, timeout=300, cwd=chk.workdir)
+        started = None
+        for ln in p.stdout.splitlines():
+            parts = ln.split(' ', 2)
+            if parts[0] == 'START':
+                started = int(parts[1])
+            elif parts[0] == 'DONE':
+                verdicts[int(parts[1])] = parts[2]
+                started = None
+        if started is not None:
+            verdicts[started] = f'child died (returncode {p.returncode}) ' + p.stderr[-200:].replace('\n', ' ')
+        elif p.returncode != 0 and not any(c['id'] not in verdicts for c in todo):
+            pass
+        elif p.returncode != 0:
+            nxt = next(c for c in todo if c['id'] not in verdicts)
+            verdicts[nxt['id']] = f'child failed before the case (returncode {p.returncode}) ' + p.stderr[-300:].replace('\n', ' ')
+        todo = [c for c in todo if c['id'] not in verdicts]
+    for c in todo:
+        verdicts[c['id']] = 'not run'
+    return verdicts
+
+
+def alias_part(chk):
+    cases = alias_cases(chk)
+    verdicts = run_alias_children(chk, cases)
+    for c in cases:
+        v = verdicts.get(c['id'], 'not run')
+        chk.count(key=('alias', c['cls'], c['kind'], c['direction'], tuple(c['shape']), c['vals_hex'][:64]), tag='alias:' + c['kind'],
+                  sample={k: x for k, x in c.items() if k != 'vals_hex'} if c['id'] == 5 else None)
+        chk.tagc('alias-dir:' + c['direction'])
+        if v != 'ok':
+            chk.violation('property_violation', case=c, impl_output=v,
+                          predicate='load (memory-mapped) then save onto the same file reached by another name, then a fresh load: '
+                                    'the data are not the original array (' + v[:80] + ')')
 
 
 UNPROVED = [
@@ -594,16 +770,21 @@ def replay(chk, obj):
     if not isinstance(c, dict) or 'cls' not in c:
         print('nothing to replay:', obj.get('predicate'))
         return 1
+    if c.get('part') == 'alias':
+        os.makedirs(chk.workdir, exist_ok=True)
+        v = run_alias_children(chk, [c]).get(c['id'])
+        import shutil
+        shutil.rmtree(chk.workdir, ignore_errors=True)
+        print('verdict:', v)
+        print('property holds on this case' if v == 'ok' else 'property fails on this case')
+        return 0 if v == 'ok' else 1
     from nibabel.spatialimages import HeaderDataError
 
-    def parse_dt(s):
-        if s.startswith('['):
-            return RGB if "'A'" not in s else RGBA
-        return np.dtype(s)
     m, d = parse_dt(c['mem']), parse_dt(c['disk'])
     vals = np.frombuffer(bytes.fromhex(c['vals_hex']), dtype=m).reshape(c['shape'])
     case = dict(id=0, cls=c['cls'], mem=m, disk=d, shape=tuple(c['shape']), be=c['be'], comp=c['comp'], route=c['route'],
-                layout=c['layout'], offset=c['offset'], tag='replay', vals=vals, hist=tuple(c.get('hist', ())))
+                layout=c['layout'], offset=c['offset'], tag='replay', vals=vals, hist=tuple(c.get('hist', ())),
+                autoscale=bool(c.get('autoscale')))
     arr = memory_variant(None, vals, c['layout'])
     expected = vals.astype(d)
     os.makedirs(chk.workdir, exist_ok=True)
@@ -621,3 +802,9 @@ def replay(chk, obj):
     import shutil
     shutil.rmtree(chk.workdir, ignore_errors=True)
     return 1 if bad else 0
+
+
+if __name__ == '__main__':
+    import sys
+    if len(sys.argv) == 3 and sys.argv[1] == '--alias-child':
+        alias_child(sys.argv[2])
